@@ -1,9 +1,9 @@
 SPECIFICATION Spec
 CONSTANTS
-  Depth = 2
+  Depth = 1
   ChainDepth = 4
   SkipAllVClose = TRUE
-  IfGuard = TRUE
+  IfGuard = FALSE
   Emit = FALSE
 INVARIANTS MeaningKept OnlyBracesGo EmitTree
 CHECK_DEADLOCK FALSE
